@@ -6,6 +6,7 @@
 -/
 import Driver.Line
 import Model.Template
+import Model.Path
 
 namespace Jl.Driver.AliasCase
 open Jl Jl.Driver Jl.Driver.Line Jl.Value Jl.Template
@@ -88,6 +89,14 @@ def applyOp (env : Env) (t : Tmpl) (rows : List RowV) (ts : List String) : StepR
        | some r => lift (importAtKeyWith (importVal env) r k x) fun r' e => .ok (rows.set i r') e (some i)
        | none => .bad "bad row index"
      | _, _, _ => .bad "bad iak")
+  | "iap" :: i :: k :: rest =>
+    -- ImportAtPath: a nested in-place mutation through one consumer of the template
+    (match i.toNat?, parseKey k, Dyn.parse? (" ".intercalate rest) with
+     | some i, some path, some x =>
+       match rows[i]? with
+       | some r => lift (Path.importAtPath env r path x) fun r' e => .ok (rows.set i r') e (some i)
+       | none => .bad "bad row index"
+     | _, _, _ => .bad "bad iap")
   | ["ex", i] =>
     (match i.toNat?.bind fun i => rows[i]? with
      | some r =>
@@ -136,10 +145,19 @@ def runCase (tmplS opsS extS obsS : String) : Result := Id.run do
     let mut rows : List RowV := []
     let mut prev : Option (String × List String) := none
     let mut stepNo := 0
+    -- the first model difference; the history is followed to its end all the same, because the oracle
+    -- only needs the implementation's own snapshots (and which root each op touches)
+    let mut firstD : Option String := none
     for (os, ob) in opStrs.zip obs do
       match applyOp env t rows (toks os) with
-      | .bad why => return ⟨"B", s!"step {stepNo} [{os}]: {why}"⟩
-      | .abstain => return ⟨"X", "model abstains"⟩
+      | .bad why =>
+        match firstD with
+        | some d => return ⟨"D", d⟩
+        | none => return ⟨"B", s!"step {stepNo} [{os}]: {why}"⟩
+      | .abstain =>
+        match firstD with
+        | some d => return ⟨"D", d⟩
+        | none => return ⟨"X", "model abstains"⟩
       | .ok rows' e touched =>
         rows := rows'
         let proto := match createRowEmpty env t with | .ok r => r | _ => []
@@ -163,12 +181,16 @@ def runCase (tmplS opsS extS obsS : String) : Result := Id.run do
           else if accepted && crs.getLast? != some f then p := some "imported-row-depends-on-earlier-lines"
         | _, _ => pure ()
         let d := ms != withoutFresh ob
-        if d || p.isSome then
-          let tag := (if d then "D" else "") ++ (if p.isSome then "P" else "")
+        if p.isSome then
+          let tag := (if d || firstD.isSome then "D" else "") ++ "P"
           return ⟨tag, s!"step {stepNo} [{os}] impl [{ob}] model [{ms}]" ++
             (match p with | some c => s!" violates C15: key={c}" | none => "")⟩
+        if d && firstD.isNone then
+          firstD := some s!"step {stepNo} [{os}] impl [{ob}] model [{ms}]"
         prev := cur
       stepNo := stepNo + 1
-    return ⟨"S", ""⟩
+    match firstD with
+    | some d => return ⟨"D", d⟩
+    | none => return ⟨"S", ""⟩
 
 end Jl.Driver.AliasCase
